@@ -525,6 +525,7 @@ class MolGraph:
         :param atoms: Iterable of atom ids to be
         :return: Subgraph
         """
+        atoms = list(atoms)  # may be a one-shot iterator
         new_atoms = set(atoms)
         atom_attrs = {atom: dict(self._atom_attrs[atom]) for atom in atoms}
         bond_attrs = {
